@@ -526,5 +526,35 @@ Section COMPOSE.
         destruct (IH st' (apply_commit d u) DR' OKr) as (stf & E' & DRf).
         exists stf. cbn [run_db spec_roots apply_commits fold_left]. rewrite E, E'. split; [reflexivity|exact DRf].
     Qed.
+    Lemma spec_roots_last : forall us d dflt, us <> [] ->
+      last (spec_roots d us) dflt = db_root H fuel (apply_commits d us).
+    Proof.
+      induction us as [|u r IH]; intros d dflt Hne; [contradiction|].
+      destruct r as [|u2 r2]; [reflexivity|].
+      change (spec_roots d (u :: u2 :: r2)) with (db_root H fuel (apply_commit d u) :: spec_roots (apply_commit d u) (u2 :: r2)).
+      change (apply_commits d (u :: u2 :: r2)) with (apply_commits (apply_commit d u) (u2 :: r2)).
+      rewrite <- (IH (apply_commit d u) dflt) by discriminate. reflexivity.
+    Qed.
+
+    (* every batching: histories denoting the same database end with the same root *)
+    Corollary batching_db : forall us1 us2,
+      Forall ok_commit us1 -> Forall ok_commit us2 -> us1 <> [] -> us2 <> [] ->
+      apply_commits [] us1 = apply_commits [] us2 ->
+      exists r1 st1 r2 st2, run_db None us1 = Ok (r1, st1) /\ run_db None us2 = Ok (r2, st2) /\
+        last r1 ZERO_HASH = last r2 ZERO_HASH.
+    Proof.
+      intros us1 us2 O1 O2 N1 N2 E.
+      destruct (history_ok us1 None [] eq_refl O1) as (st1 & E1 & _).
+      destruct (history_ok us2 None [] eq_refl O2) as (st2 & E2 & _).
+      exists (spec_roots [] us1), st1, (spec_roots [] us2), st2. split; [exact E1|]. split; [exact E2|].
+      rewrite !spec_roots_last by assumption. rewrite E. reflexivity.
+    Qed.
   End DB.
 End COMPOSE.
+
+(* fixed-length keys form a prefix-free universe without the empty key *)
+Lemma pfree_fixed_length : forall n, pfree (fun k => length k = n).
+Proof.
+  intros n a b Ha Hb [c E]. subst b. rewrite app_length in Hb.
+  destruct c; [rewrite app_nil_r; reflexivity|cbn in Hb; lia].
+Qed.
